@@ -690,7 +690,17 @@ func (x *Exec) mergeStates(edges []inEdge, b *ssa.BasicBlock) *State {
 			keys[k] = true
 		}
 	}
+	var ckeys []cellKey
 	for k := range keys {
+		ckeys = append(ckeys, k)
+	}
+	sort.Slice(ckeys, func(i, j int) bool { // deterministic naming of merged values
+		if ckeys[i].inst != ckeys[j].inst {
+			return ckeys[i].inst < ckeys[j].inst
+		}
+		return ckeys[i].a.Pos() < ckeys[j].a.Pos() || ckeys[i].a.Pos() == ckeys[j].a.Pos() && ckeys[i].a.Name() < ckeys[j].a.Name()
+	})
+	for _, k := range ckeys {
 		var v Value
 		have := false
 		for i := len(edges) - 1; i >= 0; i-- {
@@ -713,7 +723,7 @@ func (x *Exec) mergeStates(edges []inEdge, b *ssa.BasicBlock) *State {
 			hkeys[k] = true
 		}
 	}
-	for k := range hkeys {
+	for _, k := range sortedKeys(hkeys) {
 		sortK := c.heapKeys[k]
 		var v Term
 		for i := len(edges) - 1; i >= 0; i-- {
